@@ -51,13 +51,17 @@
     `K̄3·K3 = normSq K3 = Σ|K3|²`, `K3·K̄3 = normSq' K3`, rank 0, no labels, no stray sign; the labels of
     `K3` are a permutation of all labels.
   * `network_norm_chain3_strong` — the same under `tdotAdmissibleB` on both bonds.
+  * `network_norm_chain3_routes` (scalars additionally `AddCommMonoid`, `AssocLaws`) — EIGHT ROUTES: the
+    ket half as `(a·b)·c` or `a·(b·c)`, the bra half as `(ā·b̄)·c̄` or `ā·(b̄·c̄)`, the final call with the
+    bra half left (`normSq K3`) or right (`normSq' K3`): all calls succeed, the right-nested halves are
+    `C04.Eqv` to the left-nested ones (S7 for chains under the weak guard, `chain_both`), every final
+    result has rank 0, no labels, the value `Σ|K3|²` (`full_congr`: congruence of the full contraction).
   * `chain3_needs_sparing` — negative control: flipping ALSO the bra-like bond leg of `b̄` towards `c`
     (`braOf b xb1` instead of `braOf b (xb1 ++ xb2)`) gives `-106582` instead of `Σ|K3|² = 117734` on a
     concrete chain.
 
   NOT COVERED (remaining)
-  * further routes of the three-tensor network: other bracketings of the two halves (`ā·(b̄·c̄)`,
-    `a·(b·c)`: `C04.chain_bracketings_agree` gives `Eqv` halves, then `C04.tdotF_congr_eqv`), the nested
+  * further routes of the three-tensor network: the nested
     routes that absorb the bra tensors one at a time (`c̄·(b̄·(ā·K3))`: needs the triangle S7 of C04 with
     the frames of NormNet13/18), operand-swapped halves; fused / auto mode for the chain (transfer as in
     part (3) with `TdotP.Pad`);
@@ -66,7 +70,7 @@
   * the other sequential bracketings with mixed orders in any mode (same argument as `tw_cross_any_mode`
     with another triangle); `netLabelsB` for more than two labels per tensor.
 -/
-import SymmModel.Proofs.NetNorm7
+import SymmModel.Proofs.NetNorm8
 import SymmModel.Props.C10g
 
 namespace SymmModel.C10
@@ -356,6 +360,7 @@ theorem network_norm_chain3 (a b c : Arr R) (xa xb1 xb2 xc : List Nat)
       ∧ ObsEq Kb3 (K3.conjF true true)
       ∧ Kb3.ndim = K3.ndim
       ∧ K3.oddpos.Perm ((a.oddpos ++ b.oddpos) ++ c.oddpos)
+      ∧ K3.validB = true ∧ K3.fermi = true ∧ Kb3.validB = true ∧ Kb3.fermi = true
       ∧ (∃ r, Kb3.tensordotF K3 (allAxes K3.ndim) .blockwise = .ok r
           ∧ r.ndim = 0 ∧ r.oddpos = [] ∧ r.elem [] [] = normSq K3)
       ∧ (∃ r, K3.tensordotF Kb3 (allAxes K3.ndim) .blockwise = .ok r
@@ -429,5 +434,104 @@ example : chainVals C03.gA C03.gB gC [2] [0] [2] [0] true = [117734, 117734, 0, 
 /-- **the flip set of the middle bra tensor has to spare its bond legs** -/
 theorem chain3_needs_sparing :
     chainVals C03.gA C03.gB gC [2] [0] [2] [0] false = [-106582, 117734, 0, 0] := by decide +kernel
+
+/-! ### further routes -/
+
+section routes
+variable {R : Type} [AddCommMonoid R] [Mul R] [Neg R] [Conj R] [NetLaws R] [AssocP.AssocLaws R]
+
+/-- both bracketings of a chain under the weak guard (S7), with the validity of the right-nested
+    result -/
+theorem chain_both [GradedP.SignRing R] (A B C : Arr R) (xa xb1 xb2 xc : List Nat)
+    (WAB : AssocP.AdmW A B xa xb1) (WBC : AssocP.AdmW B C xb2 xc) (hnB : (xb1 ++ xb2).Nodup)
+    (hd : (A.oddpos ++ B.oddpos ++ C.oddpos).Pairwise (fun x y => x.1 ≠ y.1)) :
+    ∃ AB BC c1 c2 : Arr R,
+      A.tensordotF B (.pair (xa.map Int.ofNat) (xb1.map Int.ofNat)) .blockwise = .ok AB
+      ∧ AB.tensordotF C (.pair ((AssocP.axesAB A.ndim B.ndim xa xb1 xb2).map Int.ofNat)
+          (xc.map Int.ofNat)) .blockwise = .ok c1
+      ∧ B.tensordotF C (.pair (xb2.map Int.ofNat) (xc.map Int.ofNat)) .blockwise = .ok BC
+      ∧ A.tensordotF BC (.pair (xa.map Int.ofNat)
+          ((AssocP.axesBC B.ndim xb1 xb2).map Int.ofNat)) .blockwise = .ok c2
+      ∧ Assoc3P.Eqv c2 c1 ∧ c2.validB = true :=
+  NormNet.chain_both A B C xa xb1 xb2 xc WAB WBC hnB hd
+
+/-- the full contraction of `Eqv` copies of two halves -/
+theorem full_congr [GradedP.SignRing R] {P Q X Y r : Arr R} (n : Nat)
+    (A : AssocP.AdmW P Q (List.range n) (List.range n)) (E1 : Assoc3P.Eqv X P)
+    (E2 : Assoc3P.Eqv Y Q) (vX : X.validB = true) (vY : Y.validB = true)
+    (e : P.tensordotF Q (allAxes n) .blockwise = .ok r) (hn : r.ndim = 0) :
+    ∃ r', X.tensordotF Y (allAxes n) .blockwise = .ok r'
+      ∧ r'.ndim = 0 ∧ r'.oddpos = r.oddpos ∧ r'.elem [] [] = r.elem [] [] :=
+  NormNet.full_congr n A E1 E2 vX vY e hn
+
+/-- **network_norm_chain3_routes.**  Eight routes of the three-tensor norm network. -/
+theorem network_norm_chain3_routes (a b c : Arr R) (xa xb1 xb2 xc : List Nat)
+    (ha : a.validB = true) (hb : b.validB = true) (hc : c.validB = true)
+    (hfa : a.fermi = true) (hfb : b.fermi = true) (hfc : c.fermi = true)
+    (hadm1 : AssocP.tdotAdmissibleCommonB a b xa xb1 = true)
+    (hadm2 : AssocP.tdotAdmissibleCommonB b c xb2 xc = true)
+    (hnd : (xb1 ++ xb2).Nodup)
+    (hoA : KetLabels a.oddpos) (hoB : KetLabels b.oddpos) (hoC : KetLabels c.oddpos)
+    (hd : ((a.oddpos ++ b.oddpos) ++ c.oddpos).Pairwise (fun x y => x.1 ≠ y.1)) :
+    ∃ K2 Kb2 K3 Kb3 BC BCb K3r Kb3r,
+      a.tensordotF b (.pair (xa.map Int.ofNat) (xb1.map Int.ofNat)) .blockwise = .ok K2
+      ∧ (NormNet.braOf a xa).tensordotF (NormNet.braOf b (xb1 ++ xb2))
+          (.pair (xa.map Int.ofNat) (xb1.map Int.ofNat)) .blockwise = .ok Kb2
+      ∧ K2.tensordotF c (.pair ((AssocP.axesAB a.ndim b.ndim xa xb1 xb2).map Int.ofNat)
+          (xc.map Int.ofNat)) .blockwise = .ok K3
+      ∧ Kb2.tensordotF (NormNet.braOf c xc)
+          (.pair ((AssocP.axesAB a.ndim b.ndim xa xb1 xb2).map Int.ofNat)
+          (xc.map Int.ofNat)) .blockwise = .ok Kb3
+      -- the right-nested halves
+      ∧ b.tensordotF c (.pair (xb2.map Int.ofNat) (xc.map Int.ofNat)) .blockwise = .ok BC
+      ∧ a.tensordotF BC (.pair (xa.map Int.ofNat)
+          ((AssocP.axesBC b.ndim xb1 xb2).map Int.ofNat)) .blockwise = .ok K3r
+      ∧ (NormNet.braOf b (xb1 ++ xb2)).tensordotF (NormNet.braOf c xc)
+          (.pair (xb2.map Int.ofNat) (xc.map Int.ofNat)) .blockwise = .ok BCb
+      ∧ (NormNet.braOf a xa).tensordotF BCb (.pair (xa.map Int.ofNat)
+          ((AssocP.axesBC b.ndim xb1 xb2).map Int.ofNat)) .blockwise = .ok Kb3r
+      ∧ Assoc3P.Eqv K3r K3 ∧ Assoc3P.Eqv Kb3r Kb3
+      -- the eight routes
+      ∧ ∀ X Y : Arr R, (X = Kb3 ∨ X = Kb3r) → (Y = K3 ∨ Y = K3r) →
+          (∃ r, X.tensordotF Y (allAxes K3.ndim) .blockwise = .ok r
+            ∧ r.ndim = 0 ∧ r.oddpos = [] ∧ r.elem [] [] = normSq K3)
+          ∧ (∃ r, Y.tensordotF X (allAxes K3.ndim) .blockwise = .ok r
+            ∧ r.ndim = 0 ∧ r.oddpos = [] ∧ r.elem [] [] = normSq' K3) :=
+  NormNet.network_norm_chain3_routes a b c xa xb1 xb2 xc ha hb hc hfa hfb hfc hadm1 hadm2 hnd
+    hoA hoB hoC hd
+
+end routes
+
+/-- the eight routes of the concrete chain `gA – gB – gC`
+    (`Chain3Routes` abbreviates the conclusion of `network_norm_chain3_routes`) -/
+example : Chain3Routes C03.gA C03.gB gC [2] [0] [2] [0] :=
+  network_norm_chain3_routes C03.gA C03.gB gC [2] [0] [2] [0] (by decide +kernel) (by decide +kernel)
+    (by decide +kernel) rfl rfl rfl
+    (admissible_weak (by decide +kernel) (by decide +kernel) rfl rfl (by decide +kernel))
+    (admissible_weak (by decide +kernel) (by decide +kernel) rfl rfl (by decide +kernel))
+    (by decide) (OneKet.ketLabels (Or.inr ⟨1, rfl⟩)) (OneKet.ketLabels (Or.inr ⟨3, rfl⟩))
+    (OneKet.ketLabels (Or.inr ⟨5, rfl⟩)) (by decide)
+
+/-- the right-nested route `(ā·(b̄·c̄))·(a·(b·c))` of a concrete chain, and `normSq ((a·b)·c)` -/
+def chainValsR (a b c : Arr Int) (xa xb1 xb2 xc : List Nat) : List Int :=
+  let P (x y : List Nat) : AxesArg := .pair (x.map Int.ofNat) (y.map Int.ofNat)
+  let x2 := AssocP.axesAB a.ndim b.ndim xa xb1 xb2
+  let y2 := AssocP.axesBC b.ndim xb1 xb2
+  match b.tensordotF c (P xb2 xc) .blockwise,
+      (NormNet.braOf b (xb1 ++ xb2)).tensordotF (NormNet.braOf c xc) (P xb2 xc) .blockwise,
+      a.tensordotF b (P xa xb1) .blockwise with
+  | .ok bc, .ok bcb, .ok k2 =>
+    (match a.tensordotF bc (P xa y2) .blockwise,
+        (NormNet.braOf a xa).tensordotF bcb (P xa y2) .blockwise,
+        k2.tensordotF c (P x2 xc) .blockwise with
+     | .ok k3r, .ok kb3r, .ok k3 =>
+       (match kb3r.tensordotF k3r (allAxes k3.ndim) .blockwise with
+        | .ok r => [r.elem [] [], normSq k3, (r.ndim : Int), (r.oddpos.length : Int)]
+        | .error _ => [])
+     | _, _, _ => [])
+  | _, _, _ => []
+
+example : chainValsR C03.gA C03.gB gC [2] [0] [2] [0] = [117734, 117734, 0, 0] := by
+  decide +kernel
 
 end SymmModel.C10
